@@ -7,7 +7,8 @@ value-taking option is consumed under its own name and stored into the Settings 
 name (scale multiplies the default); X4 every exit with a non-zero status is control-dependent on an
 error/none outcome, and the success path of the batch mode exits 0; X5 no Result of a workspace
 function is dropped: its error arm exits non-zero, propagates, or feeds a failure count that
-controls an error return; X7 no failure exit can follow the creation/truncation of the output file other
+controls an error return; X8 an option value that does not parse ends the run with a failure (error arm
+exits non-zero, or the option is declared with a clap validator); X7 no failure exit can follow the creation/truncation of the output file other
 than the report of that write's own failure (no partial output on option errors); X6 the library prints nothing on the conversion path except two reviewed
 diagnostics on believed-infeasible paths.  Not decided: partial output on I/O failure (fs::write
 semantics), clap's own parsing."""
@@ -355,10 +356,88 @@ def run(run):
             else:
                 run.bad("C19.X5", "dropped-error/%s/%s" % (short(p), short(callee)), where(t),
                         "%s: the error arm neither exits non-zero, propagates, nor feeds a failure that is reported" % inst)
+    x8(run)
     x7(run, MAIN)
     x6(run)
     batch(run)
     run.assume("clap parses the command line as documented; fs::write may leave a partial file on I/O errors (not decided)")
+
+
+def x8(run):
+    """X8 an option value that does not parse is a failure.  Every `str::parse` in the CLI crate either has an
+    error arm that exits non-zero / is propagated in a returned Result, or — when the error is discarded
+    (`.ok()`, `unwrap_or..`) — every option whose value reaches that parse is declared with a clap validator."""
+    prog = run.prog
+    cli = [q for q in prog.bodies if prog.bodies[q].get("crate") == "svgbob_cli"]
+    f, v = src_file(run, "svgbob_cli/src/main.rs")
+    validated, declared = set(), set()
+    if v is not None:
+        for n in find_nodes(v, lambda z: z.get("k") == "method" and z.get("method") == "arg" and z.get("args")):
+            a = n["args"][0]
+            names = find_nodes(a, lambda z: z.get("k") == "call" and z["func"].get("path", "").endswith("with_name"))
+            if not names or names[0]["args"][0].get("ty") != "str":
+                continue
+            nm = names[0]["args"][0]["v"]
+            declared.add(nm)
+            if find_nodes(a, lambda z: z.get("k") == "method" and z.get("method") in ("validator", "validator_os", "possible_values", "possible_value")):
+                validated.add(nm)
+    n_parse = 0
+    for p in cli:
+        pb = prog.bodies[p]
+        cfg = prog.cfg(p)
+        pex = Expr(prog, p)
+        for bid, t in prog.calls(p):
+            if not re.search(r"^core::str::<impl str>::parse$", Program.callee_name(t)):
+                continue
+            n_parse += 1
+            handled = None
+            for blk in pb["blocks"]:
+                sw = blk["term"]
+                if sw["k"] != "switch":
+                    continue
+                c = strip(pex.operand(sw["on"]))
+                if c[0] == "discr" and strip(c[1])[0] == "call" and len(strip(c[1])) > 3 and strip(c[1])[3] == bid and strip(c[1])[1] == Program.callee_name(t):
+                    errs = [sw["targets"][i] for i, vv in enumerate(sw["values"]) if vv == 1]
+                    oks = [x for x in sw["targets"] if x not in errs]
+                    if errs:
+                        reg = cfg.reachable_from(errs[0], removed=[blk["id"]])
+                        for o in oks:
+                            reg -= cfg.reachable_from(o, removed=[blk["id"]])
+                        for rb in reg:
+                            tt = pb["blocks"][rb]["term"]
+                            if tt["k"] == "call" and Program.callee_name(tt) == "std::process::exit":
+                                cc = op_const(tt["args"][0])
+                                if cc and cc.get("int"):
+                                    handled = "the error arm exits %d" % cc["int"]
+            if handled is None and pb["locals"][0]["ty"].startswith("core::result::Result"):
+                if any(mentions(r, lambda z: z[0] == "call" and len(z) > 3 and z[3] == bid and z[1] == Program.callee_name(t)) for r in pex.returns()):
+                    handled = "the Result is returned to the caller"
+            inst = "str::parse in %s" % short(p)
+            if handled:
+                run.ok("C19.X8", "%s: %s" % (inst, handled), where(t))
+                continue
+            # the error is discarded: which options reach this parse?
+            names = set(value_of_names(pex.operand(t["args"][0])))
+            owner = p.split("::{closure")[0]
+            for q in cli:
+                qex = None
+                for _, ct in prog.calls(q):
+                    if Program.callee_name(ct) == owner and owner != MAIN:
+                        qex = qex or Expr(prog, q, opaque=r"get_matches$")
+                        if "alloc::string::String" in (ct["callee"].get("generics") or [])[:1]:
+                            continue  # parse::<String> cannot fail (Err = Infallible)
+                        for a in ct["args"]:
+                            e = strip(qex.operand(a))
+                            if e[0] == "const" and e[1] == "str":
+                                names.add(e[2])
+            unvalidated = sorted(n for n in names if n not in validated)
+            if names and not unvalidated:
+                run.ok("C19.X8", "%s discards the error, but every option that reaches it (%s) has a clap validator" % (inst, ", ".join(sorted(names))), where(t))
+            else:
+                run.bad("C19.X8", "dropped-parse-error/%s" % short(owner), where(t),
+                        "%s discards the parse error and %s reach%s it without a clap validator: an unparsable value is silently ignored, the run exits 0 with no diagnostic and writes a document for other settings" % (
+                            inst, ("option(s) " + ", ".join("--" + n for n in unvalidated)) if unvalidated else "values of unknown origin", "" if len(unvalidated) != 1 else "es"))
+    run.floor("C19.X8", "parse_sites", n_parse, 1)
 
 
 CREATE = r"^std::fs::write$|^std::fs::File::create(_new)?$|^std::fs::OpenOptions::open$|^std::fs::copy$|^std::fs::rename$"
